@@ -13,6 +13,7 @@ use crate::reference::locator::ref_open;
 pub const DEF: PropDef = PropDef { id: "C18", strata, run, setup, canaries: &["panic"] };
 
 fn setup(ctx: &mut Ctx) {
+    ctx.floor("counts-expressed-through-shdr0", 100);
     ctx.floor("name-table-without-final-terminator", 100);
     ctx.floor("files", 100);
     ctx.floor("prefixes-evaluated", 20_000);
@@ -179,6 +180,13 @@ fn run(ctx: &mut Ctx, si: usize, case: u64) {
                     ctx.count("name-table-without-final-terminator");
                 }
             }
+            let mut enc_log = Vec::new();
+            if ctx.rng.chance(1, 4) {
+                enc_log = crate::gen::mutate::extended_encoding(&mut ctx.rng, &mut b);
+                if !enc_log.is_empty() {
+                    ctx.count("counts-expressed-through-shdr0");
+                }
+            }
             let lengths: Vec<usize> = if ctx.tier == Tier::Miri {
                 (0..24).map(|_| ctx.rng.usize_below(b.bytes.len())).collect()
             } else if b.bytes.len() <= 4096 {
@@ -192,7 +200,7 @@ fn run(ctx: &mut Ctx, si: usize, case: u64) {
                 v.dedup();
                 v
             };
-            judge_file(ctx, &b.bytes, &format!("generated {}", enc.name()), &lengths, 4);
+            judge_file(ctx, &b.bytes, &format!("generated {} {:?}", enc.name(), enc_log), &lengths, 4);
         }
         2 => {
             // megabyte-sized files with extended numbering: prefixes around every structure boundary
